@@ -3,6 +3,7 @@
    round-trip law (the search that decides whether a break is a real violation). *)
 open Common
 open Mtbl_model
+type string = Stdlib.String.t
 
 external c_enc32 : int64 -> string = "vp_varint_encode32"
 external c_enc64 : int64 -> string = "vp_varint_encode64"
